@@ -60,7 +60,8 @@ def build_go():
     """Build the gopatch binary and the harness from /repo's working tree.
     Cached by a hash of the Go sources of /repo and of the harness."""
     os.makedirs(BUILD, exist_ok=True)
-    hsrc = sorted(glob.glob(os.path.join(VERIF, "harness", "zzverif", "*.go"))) + sorted(glob.glob(os.path.join(VERIF, "harness", "astdiff", "*.go")))
+    hsrc = sorted(glob.glob(os.path.join(VERIF, "harness", "zzverif", "*.go"))) + sorted(glob.glob(os.path.join(VERIF, "harness", "astdiff", "*.go"))) + \
+           sorted(glob.glob(os.path.join(VERIF, "harness", "engine", "*.go")))
     with Lock("go"):
         key = tree_hash(repo_sources() + hsrc)
         stamp = os.path.join(BUILD, "go.stamp")
@@ -97,7 +98,8 @@ def build_go():
 
 def build_race_harness():
     """The harness built with the race detector (cgo needed), cached like the other binaries; None if it cannot be built."""
-    hsrc = sorted(glob.glob(os.path.join(VERIF, "harness", "zzverif", "*.go"))) + sorted(glob.glob(os.path.join(VERIF, "harness", "astdiff", "*.go")))
+    hsrc = sorted(glob.glob(os.path.join(VERIF, "harness", "zzverif", "*.go"))) + sorted(glob.glob(os.path.join(VERIF, "harness", "astdiff", "*.go"))) + \
+           sorted(glob.glob(os.path.join(VERIF, "harness", "engine", "*.go")))
     with Lock("go"):
         key = tree_hash(repo_sources() + hsrc)
         stamp = os.path.join(BUILD, "race.stamp")
